@@ -407,8 +407,8 @@ namespace pika::detail {
                             "affinity mask for thread {} has already been set", num_thread);
                         return;
                     }
-                    num_pus[num_thread] =
-                        t.get_pu_number(num_core + used_cores, pu_indexes[num_core][num_pu]);
+                    num_pus[num_thread] = t.get_pu_number(
+                        num_core + used_cores + core_offset, pu_indexes[num_core][num_pu]);
                     affinities[num_thread] = t.init_thread_affinity_mask(
                         num_core + used_cores + core_offset, pu_indexes[num_core][num_pu]);
                     ++num_thread;
